@@ -153,10 +153,18 @@ func (w *c13worker) start(cfg []byte, tries int) (*core.Core, bool) {
 
 // logTail returns the last error lines of this worker's log (the Core logs to stdout).
 func (w *c13worker) logTail() string {
-	buf, err := os.ReadFile(filepath.Join(filepath.Dir(w.dir), fmt.Sprintf("worker-%d.log", w.idx)))
+	f, err := os.Open(filepath.Join(filepath.Dir(w.dir), fmt.Sprintf("worker-%d.log", w.idx)))
 	if err != nil {
 		return ""
 	}
+	defer f.Close()
+	st, _ := f.Stat()
+	off := st.Size() - 64<<10
+	if off < 0 {
+		off = 0
+	}
+	buf := make([]byte, st.Size()-off)
+	_, _ = f.ReadAt(buf, off)
 	lines := strings.Split(strings.TrimSpace(string(buf)), "\n")
 	var out []string
 	for i := len(lines) - 1; i >= 0 && len(out) < 3; i-- {
